@@ -75,3 +75,44 @@ func (p *Prog) inUnitOf(f *ssa.Function, roots ...*ssa.Function) bool {
 	rs, stray := p.unitRoots(f, is)
 	return stray == nil && len(rs) > 0
 }
+
+// guardedIP: on every way to instruction in, a guard satisfying match holds: a dominating guard in the
+// instruction's own function, or — when that function is a private helper or a local closure — a guard that holds
+// (in the same sense) at every one of its call sites. match must judge the guard by what it tests (a field, a
+// callee), not by identity with values of the instruction's function: the guard may live in a caller.
+func (p *Prog) guardedIP(in ssa.Instruction, match func(g Guard) bool, depth int) bool {
+	for _, g := range guardsOf(in.Block()) {
+		if match(g.norm()) {
+			return true
+		}
+	}
+	if depth > 3 {
+		return false
+	}
+	f := in.Parent()
+	if f.Parent() == nil {
+		if obj, ok := f.Object().(*types.Func); !ok || obj.Exported() {
+			return false
+		}
+	}
+	calls, escapes := p.callSitesOf(f)
+	if len(escapes) > 0 || len(calls) == 0 {
+		return false
+	}
+	for _, cs := range calls {
+		ci, ok := cs.(ssa.Instruction)
+		if !ok {
+			return false
+		}
+		if _, isGo := cs.(*ssa.Go); isGo {
+			return false
+		}
+		if funcPkgPath(cs.Parent()) != funcPkgPath(f) {
+			return false
+		}
+		if !p.guardedIP(ci, match, depth+1) {
+			return false
+		}
+	}
+	return true
+}
